@@ -63,7 +63,7 @@ pub fn worker(property: &str, tier: &str) {
     crate::session::install_panic_hook();
     silence_stderr();
     let corpus = load_corpus(&corpus_path());
-    let opts = ExecOpts { open_findings: load_findings(), collect_codes: std::env::var("SIM_COLLECT_CODES").is_ok(), code_dedup: true, ..Default::default() };
+    let opts = ExecOpts { open_findings: load_findings(), collect_codes: std::env::var("SIM_COLLECT_CODES").is_ok(), code_dedup: true, heartbeat: true, ..Default::default() };
     let root = root_seed();
     let stdin = std::io::stdin();
     let stdout = std::io::stdout();
